@@ -34,12 +34,32 @@ def model_phase(c, tier):
     c.setv("model_sequences_replayed", summary["behaviours"])
     c.setv("model_normal_form_equals_real", summary["extra"]["exact"])
     c.setv("model_deviations", len(diffs))
+    # the canonical conversion (Frames.tla: inclusive/wrapping ranges <-> half-open pieces) composed with the paving, one real
+    # dimension at a time: theorems (MC_Frames), then the model's normal form of 5 100 sentences against the real normaliser
+    c.add_tlc(vlib.tlc_ok("MC_Frames", workers=1, heap="2g", timeout=900))
+    fpath = os.path.join(vlib.WORK, "%s_frames.ndjson" % c.pid.lower())
+    vlib.tlc_ok("Gen_Frames", env={"OUT": fpath}, workers=1, heap="4g", timeout=1800)
+    fcases = [json.loads(l) for l in open(fpath)]
+    fout = vlib.ohv(["replay", "normalize", fpath])
+    fdiffs, fsummary = [], None
+    for line in fout.splitlines():
+        if line.startswith("DIFF "):
+            fdiffs.append(json.loads(line[5:]))
+        elif line.startswith("MISMATCH "):
+            c.mismatch("normalising a sentence of the frames model failed: " + line[9:200], json.loads(line[9:]))
+        elif line.startswith("SUMMARY "):
+            fsummary = json.loads(line[8:])
+    if fsummary is None:
+        raise vlib.ToolError("no summary from the harness (frames)")
+    c.add("traces_validated_against_impl", fsummary["behaviours"])
+    c.setv("frames_model", {"sentences": fsummary["behaviours"], "normal_form_equals_real": fsummary["extra"]["exact"],
+                            "deviations": len(fdiffs)})
     # sentences on which the model's normal form is not the real one are added to the trace (their meaning is what counts)
     extra = os.path.join(vlib.WORK, "%s_extra_cases.ndjson" % c.pid.lower())
     with open(extra, "w") as f:
-        for d in diffs[:2000]:
+        for d in (diffs + fdiffs)[:3000]:
             f.write(json.dumps({"text": d["text"], "expect": "accept"}) + "\n")
-        for x in cases[::37]:
+        for x in cases[::37] + fcases[(c.seed % 11)::11]:
             f.write(json.dumps({"text": x["text"], "expect": "accept"}) + "\n")
     return extra, cases
 
